@@ -758,7 +758,7 @@ pub fn file_any(size: BoxedStrategy<u32>, kinds: bool) -> BoxedStrategy<FileSpec
         (owner(), owner()),
         prop_oneof![3 => Just(0u8), 2 => 0u8..64],
         proptest::option::weighted(0.2, proptest::sample::select(CAPS_VALID).prop_map(|s| s.to_string())),
-        (0u32..2_000_000_000, proptest::option::weighted(0.2, any::<u32>())),
+        (prop_oneof![8 => 0u32..2_000_000_000, 1 => 2_000_000_000u32..=u32::MAX, 1 => proptest::sample::select(vec![0u32, 1, (1 << 31) - 1, 1 << 31, (1 << 31) + 1, u32::MAX - 1, u32::MAX])], proptest::option::weighted(0.2, any::<u32>())),
         // kind selector: 0..8 regular, 8 dir, 9 symlink
         (0u8..10, 0u16..0o10000, "[a-z/.]{1,12}"),
     )
